@@ -10,6 +10,18 @@ TB = ('Trusted: Lean 4.33 kernel + Mathlib v4.33 as compiled in the image; axiom
       'generated cases); reals vs IEEE doubles (rounding not modelled). ')
 
 CHECKS = {
+ 'C01': dict(
+   text='Theorems over the reals for any number of stations, location samples and tensors: the per-sample log-likelihood denotes the '
+        'product of the station likelihoods of every supplied type; without location samples the reported value is that sum of logs; '
+        'with K samples and weights w>0 it denotes sum_k w_k prod_i p_ik (unweighted: plain sum); adding the amplitude-ratio type adds '
+        'exactly its term; absent types contribute nothing; batch independence; station-order, sample-order invariance (exact), '
+        'duplicate-versus-weight equivalence; zero filtering keeps exactly the finite candidates paired with their own tensors. Tie: '
+        'ForwardTask on the pure-Python path fed by the public matrix builders vs the executable model from the same data dictionary; '
+        'oracle = single-station public likelihood calls combined by name lookup + invariance probes on the real code.',
+   note=TB + 'Polarity information is manual polarities or polarity probabilities (manual win when both present, as coded). '
+        'Log-likelihoods below -600 count as zero probability on both sides.',
+   technique='Lean 4 proof (list induction, permutation invariance, log-sum-exp semantics) + differential correspondence',
+   design='5/C01'),
  'C02': dict(
    text='Theorems over the reals, for every amplitude, uncertainty >= 0 and mispick probability in [0,1]: the documented '
         'expression, range [0,1] (strictly positive), complement p(A)+p(-A)=1, monotone/strictly monotone/antitone in A by the '
@@ -38,10 +50,21 @@ CHECKS = {
         'positivity/definedness for any fractional error (0 replaced by 1e-24), product over stations, and the closed form EQUALS '
         'the defining integral of |y| N(zy) N(y) dy (proved with FTC on half-lines and the Gaussian integral). Tie: ratio_pdf / '
         'amplitude_ratio_ln_pdf vs the executable model; oracle on the real code incl. quadrature of the defining integral and of '
-        'the normalisation. Partial: normalisation to one over r in (0,inf) is tested by quadrature, not proved.',
+        'the normalisation. Normalisation: integral over all z of the closed form = 1 and integral over r in (0,inf) of the likelihood = 1 are proved (Tonelli + Gaussian integrals).',
    note=TB + 'scipy.stats.norm.cdf is modelled as 1/2(1+erf(x/sqrt2)); comparison tolerance scales with Hinkley c (conditioning of the coded exponent).',
    technique='Lean 4 proof (algebra + improper integrals in Mathlib) + differential correspondence; quadrature only inside the search oracle',
    design='5/C03'),
+ 'C11': dict(
+   text='Theorems over the reals: station coefficients dotted with any symmetric tensor equal g.M.g (P), phi.M.g (SH), theta.M.g (SV) for '
+        'every azimuth and take-off angle; g, phi, theta orthonormal; invariance under joint rotation about the vertical; degree '
+        'conversion; Q-suffix handling. Alignment (lists of any length): selected stations = sorted set intersection of data and '
+        'location names, each output station carries the data row and the location angles of its own name, one per selected name, '
+        'invariance under permuting the data rows, dependence on location records only through by-name lookups, polarity sign folded '
+        'into coefficients, ratio = |num/den| with fractional errors, types in sorted key order. Tie: station_angles and the three '
+        'matrix builders vs the executable model; oracle = by-name specification and radiation formulae from first principles.',
+   note=TB + 'Station names are replaced by their sorted rank before reaching the model. String.replace in key parsing is covered only by the correspondence run.',
+   technique='Lean 4 proof (trigonometric identities via linear_combination; list/sort lemmas) + differential correspondence',
+   design='5/C11'),
  'C04': dict(
    text='Theorems over the reals for slices of any length and any -inf pattern: log-sum-exp exactness with dV, -inf iff all '
         'entries -inf, commutation with adding a constant, every exp argument <= 0 with one equal to 0 (so log argument in '
